@@ -381,6 +381,31 @@ def runtime_part(run, tier, seed):
         if g1.data.tobytes() != g1b:
             run.violation("Tensor.backward.callers_gradient_unchanged", "the gradient tensor passed to an earlier backward call was modified by later accumulation",
                           key={"dtype": np.dtype(dt).name, "root_kind": "leaf"}, replay={})
+        # tensors that only ENTER THE CALLER'S CONTAINERS after the forward call are outside the graph: the list handed to a join is edited afterwards (an entry replaced by
+        # an unrelated leaf that already holds a gradient, another unrelated leaf appended), the index list of a lookup is edited -- backward must leave them alone
+        import synapgrad.functional as F_
+        for jname, join in (("concat", lambda ps: F_.concat(ps, 0)), ("stack", lambda ps: F_.stack(ps, 0))):
+            a = Tensor(rng.rand(3).astype(dt), requires_grad=True)
+            b = Tensor(rng.rand(3).astype(dt), requires_grad=True)
+            c = Tensor(rng.rand(3).astype(dt), requires_grad=True)
+            d = Tensor(rng.rand(3).astype(dt), requires_grad=True)
+            (c * 3.0).sum().backward()
+            c_grad, c_data, d_data = np.asarray(c._grad).tobytes(), c.data.tobytes(), d.data.tobytes()
+            parts = [a * 2.0, b]
+            y = join(parts)
+            parts[0] = c
+            parts.append(d)
+            run.rt(("outside-graph-container", jname, np.dtype(dt).name))
+            try:
+                (y * y).sum().backward()
+            except Exception as e:
+                run.violation("Tensor.backward.outside_graph_untouched", "backward through %s raised %s after the caller edited the list it had passed: %s" % (jname, type(e).__name__, e),
+                              key={"dtype": np.dtype(dt).name, "join": jname, "clause": "container edited after the forward"}, replay={})
+                continue
+            if c._grad is None or np.asarray(c._grad).tobytes() != c_grad or c.data.tobytes() != c_data or d._grad is not None or d.data.tobytes() != d_data:
+                run.violation("Tensor.backward.outside_graph_untouched", "after %s([a*2, b]) the caller replaced an entry of its list by an unrelated leaf c and appended another leaf d; "
+                              "backward changed them (c.grad changed: %s, d.grad: %s)" % (jname, c._grad is None or np.asarray(c._grad).tobytes() != c_grad, "None" if d._grad is None else "set"),
+                              key={"dtype": np.dtype(dt).name, "join": jname, "clause": "container edited after the forward"}, replay={})
 
 
 def repeat_part(run, tier):
